@@ -220,7 +220,10 @@ def judge(ctx, frags, normalize, drv):
     m, srcs, names, text = r
     if text != ''.join(f[0] for f in frags):
         return ['written text differs from the concatenated fragment texts']
-    sm = sourcemap.encode_sourcemap('out.js', m, srcs, names)
+    try:
+        sm = sourcemap.encode_sourcemap('out.js', m, srcs, names)
+    except Exception as e:      # no source map at all for a stream write() accepted
+        return ['encode_sourcemap raised %s: %s' % (type(e).__name__, str(e)[:100])]
     mstr = sm['mappings']
     fails = []
     dec = drv.ask('decode ' + proto.enc_str(mstr))
@@ -387,6 +390,8 @@ SOURCES = [None, None, None, NotImplemented, 'a.js', 'b.js', 'dir/c.js', 'about:
 
 def synth_text(rng):
     r = rng.random()
+    if r < 0.01:
+        return rng.choice('ab ') * rng.randint(1000, 3000)     # a very long generated line: large generated-column deltas
     if r < 0.65:
         return rng.choice(TEXT_ATOMS)
     return ''.join(rng.choice(TEXT_ATOMS) for _ in range(rng.randint(2, 4)))
@@ -407,6 +412,10 @@ def synth_stream(rng, wf_only):
                 col = rng.randint(1, 9)
             if rng.random() < 0.1:
                 line, col = rng.randint(1, 5), rng.randint(1, 40)
+            if rng.random() < 0.08:
+                # far jumps forwards and backwards (long lines, later files starting again at line 1): large deltas of both signs
+                line = rng.choice([1, 2, rng.randint(1, 70000), rng.randint(1000, 5000)])
+                col = rng.choice([1, rng.randint(1, 70000), rng.randint(1000, 5000)])
             ln, cn = line, col
         elif r < 0.7:
             ln, cn = 0, 0
@@ -652,7 +661,11 @@ def run(ctx):
     for k in range(ctx.n(150, 1500)):
         frags = synth_stream(rng, wf_only=True)
         r = impl_write(frags, bool(k % 2))
-        mstr = sourcemap.encode_sourcemap('o', r[0], r[1], r[2])['mappings']
+        try:
+            mstr = sourcemap.encode_sourcemap('o', r[0], r[1], r[2])['mappings']
+        except Exception as e:
+            rel_bad = (frag_list_json(frags), 'encode_sourcemap raised %s' % type(e).__name__)
+            break
         got = drv.ask('rel ' + proto.enc_str(mstr))
         if got != 'OK ' + render_mappings(r[0]):
             rel_bad = (frag_list_json(frags), mstr, got, render_mappings(r[0]))
